@@ -54,6 +54,12 @@ def handle (req : Sexp) : Sexp :=
     | .list [.atom "order", t] => do
       let b ← getBox 64 t
       some (.list [.atom "ok", putEvs (paintOrder b), putEvs (specOrder b)])
+    -- a whole page: ids of the @page background and of the canvas background (none = absent), root element
+    | .list [.atom "page", pb, cb, t] => do
+      let b ← getBox 64 t
+      let pb' ← match pb with | .atom "none" => some none | x => x.asNat?.map some
+      let cb' ← match cb with | .atom "none" => some none | x => x.asNat?.map some
+      some (.list [.atom "ok", putEvs (pagePaint pb' cb' b), putEvs (specPage pb' cb' b)])
     -- the enclosure / per-box layer judge on an event list (the implementation's)
     | .list [.atom "enclosure", t, evs] => do
       let b ← getBox 64 t
